@@ -393,12 +393,16 @@ fn mkcorpus(root: &str) {
     }
 
     // ---- knob strings for the structure-aware targets --------------------------------------------------
+    // fuzz_struct: [kind] [mode: 0 plain, 2 fake store, 4 real store, 7 signed] [seed:4] [size:2] [hint] [ops] [n] mutations…
     for k in 0..assets::KINDS.len() as u8 {
-        for mode in 0..3u8 {
+        for mode in [0u8, 2, 4, 5, 7] {
             for j in 0..2u8 {
                 let mut r = SplitMix64::new(0xABCD ^ ((k as u64) << 16) ^ ((mode as u64) << 8) ^ j as u64);
                 let mut v = vec![k, mode];
-                v.extend(r.bytes(24 + 8 * j as usize));
+                v.extend(r.bytes(6)); // seed, size
+                v.push(0); // hint: the kind's own format
+                v.push(if j == 0 { 0 } else { 4 + 8 }); // ops: read only / read + write ops + ingredient
+                v.extend(r.bytes(16 + 8 * j as usize));
                 out.put("fuzz_struct", &format!("knobs-{}-m{mode}-{j}", assets::KINDS[k as usize]), &v);
             }
         }
